@@ -127,6 +127,15 @@ def case_level(ctx, cases, tag):
                     allsame = all(x == y for x in valid)
                     if (abs(got[0]) <= 1e-12) != allsame:
                         ctx.violation("ecdf CRPS is zero iff every member equals the observation", desc, "zero" if allsame else "positive", float(got[0]))
+            # the penalties are the documented sums (1/m) sum (y - x_i)^+ and (1/m) sum (x_i - y)^+ over the valid members
+            if valid and not isnan(y):
+                du = sum((max(y - x, 0) for x in valid), Fraction(0)) / len(valid)
+                do = sum((max(x - y, 0) for x in valid), Fraction(0)) / len(valid)
+                if not core.close(got[1], du) or not core.close(got[2], do):
+                    ctx.violation("underforecast / overforecast penalty differs from its documented formula", desc, [du, do], [float(got[1]), float(got[2])])
+            # a missing observation / no valid member removes the case from every component
+            if (not valid or isnan(y)) and not all(np.isnan(g) for g in got):
+                ctx.violation("a case without valid input is not NaN in every component", desc, ["nan"] * 4, [float(g) for g in got])
             # total = under + over - spread
             if not (np.isnan(got[0]) and any(np.isnan(g) for g in got[1:])) and not core.close(got[1] + got[2] - got[3], Fraction(got[0]) if not np.isnan(got[0]) else NAN):
                 ctx.violation("total != underforecast + overforecast - spread", desc, float(got[0]), float(got[1] + got[2] - got[3]))
@@ -549,6 +558,58 @@ def guard_level(ctx):
     ctx.count("guards")
 
 
+def reduction_level(ctx, n):
+    """the reduced / weighted public result is the NaN-skipping mean of (per-case score x weights) over the requested dims:
+    relation between a public call with reduce_dims / weights and the same call with preserve_dims='all'"""
+    for _ in range(n):
+        if not ctx.time_left():
+            break
+        c = gen_full(ctx)
+        if c["method"] not in ("ecdf", "fair") or c["comps"]:
+            continue
+        c = dict(c, rd=None, pd="all", w=None)
+        base = call_full(c)
+        if base[0] != "ok":
+            continue
+        w = None
+        dims = list(base[1].dims)
+        if ctx.rng.random() < 0.7:
+            sz = dict(base[1].sizes)
+            wd = [d for d in dims if ctx.rng.random() < 0.6]
+            if ctx.rng.random() < 0.3:
+                sz["w"] = 2
+                wd = wd + ["w"]
+            w = gens.rand_da(ctx.rng, sz, dims=wd, lo=0, hi=3, den=2, nan_p=0.1 if ctx.rng.random() < 0.3 else 0.0)
+        allw = dims + ([d for d in w.dims if d not in dims] if w is not None else [])
+        R = None if ctx.rng.random() < 0.4 else [d for d in allw if ctx.rng.random() < 0.5]
+        c2 = dict(c, rd=R, pd=None, w=w)
+        got = call_full(c2)
+        weighted = base[1] if w is None else base[1] * w
+        want = weighted.mean(dim=allw if R is None else R)
+        desc = describe(c2)
+        ctx.case(("reduction", desc), nontrivial=bool(np.isfinite(np.asarray(want.values, dtype=float)).any()))
+        ctx.count("reduction")
+        if got[0] != "ok":
+            ctx.violation("reduced / weighted call fails where the per-case call succeeds", desc, "a value", got[1])
+            continue
+        g = got[1]
+        if set(g.dims) != set(want.dims):
+            ctx.violation("reduced / weighted call keeps other dimensions than requested", desc, sorted(want.dims), sorted(g.dims))
+            continue
+        g = sort_labels(g).transpose(*sort_labels(want).dims)
+        if not same(g.values, sort_labels(want).values).all():
+            ctx.violation("reduced / weighted result is not the NaN-skipping mean of per-case score x weights", desc,
+                          np.asarray(sort_labels(want).values).tolist(), np.asarray(g.values).tolist())
+
+
+def sort_labels(x):
+    if isinstance(x, xr.DataArray):
+        for d in x.dims:
+            if d in x.coords:
+                x = x.sortby(d)
+    return x
+
+
 def exhaustive_cases():
     vals = SMALL + [NAN]
     out = []
@@ -579,6 +640,7 @@ def run(ctx):
     tw_level(ctx, [c for c in ex if len(c[0]) >= 2][:: (7 if ctx.tier == "quick" else 1)], "tw-sweep")
     full_level(ctx, ctx.n(350, 6000))
     additivity_full(ctx, ctx.n(60, 1200))
+    reduction_level(ctx, ctx.n(80, 1500))
     guard_level(ctx)
     corpus(ctx)
     ctx.sample({"theorem": "C06_crps_ecdf_is_integral", "meaning": "kernel form = integral of (F_ens - 1{y<=t})^2 for every ensemble"})
